@@ -30,6 +30,7 @@ type selftestResult struct {
 	SilentAsExpected int      `json:"silent_as_expected"`
 	Skipped          int      `json:"skipped_patch_does_not_apply"`
 	ResidualAlarms   []string `json:"documented_residual_false_alarms"`
+	DocumentedMisses []string `json:"documented_misses"`
 	Unexpected       []string `json:"unexpected"`
 	Variants         []string `json:"variants"`
 }
@@ -65,7 +66,16 @@ func runSelftest(r *Run) *selftestResult {
 	}
 	seeds, _ := filepath.Glob(filepath.Join(r.Verif, "seeded", r.Property+"-*", "patch.diff"))
 	for _, s := range seeds {
-		jobs = append(jobs, job{"seeded/" + filepath.Base(filepath.Dir(s)), s, "breaking", false})
+		// a seeded change the property's own check is known not to catch (DESIGN §11) carries
+		// "known_miss" in its meta.json: reported as such, still replayed on every run
+		miss := false
+		if b, err := os.ReadFile(filepath.Join(filepath.Dir(s), "meta.json")); err == nil {
+			var m struct {
+				KnownMiss string `json:"known_miss"`
+			}
+			miss = json.Unmarshal(b, &m) == nil && m.KnownMiss != ""
+		}
+		jobs = append(jobs, job{"seeded/" + filepath.Base(filepath.Dir(s)), s, "breaking", miss})
 	}
 	sort.Slice(jobs, func(i, j int) bool { return jobs[i].name < jobs[j].name })
 	self, err := os.Executable()
@@ -112,6 +122,8 @@ func runSelftest(r *Run) *selftestResult {
 				res.FiredAsExpected++
 			case j.kind == "benign" && code == 0:
 				res.SilentAsExpected++
+			case j.kind == "breaking" && j.residual:
+				res.DocumentedMisses = append(res.DocumentedMisses, fmt.Sprintf("%s: exit=%d", j.name, code))
 			case j.kind == "benign" && j.residual:
 				res.ResidualAlarms = append(res.ResidualAlarms, fmt.Sprintf("%s: exit=%d", j.name, code))
 			default:
